@@ -42,6 +42,12 @@ import (
 
 const InfiniteRetriesErrRecovery = -1
 
+// errShutdownDuringRecovery is an internal sentinel returned by
+// StartWithBackoff when StopAll (a server shutdown) began before the pipeline
+// was restarted. It is never surfaced to callers: the cleanup goroutine maps
+// it to StatusSystemStopped. Mirrors pkg/lifecycle-poc.
+var errShutdownDuringRecovery = cerrors.New("shutdown during recovery backoff")
+
 type FailureEvent struct {
 	// ID is the ID of the pipeline which failed.
 	ID    string
@@ -106,6 +112,16 @@ type Service struct {
 	// runningPipelines entry is deleted; cleared when the pipeline is started
 	// again. See docs/design-documents/20260706-forceful-stop-test-determinism.md.
 	terminalErrors *csync.Map[string, error]
+
+	// shutdown is closed by StopAll when the server shuts down gracefully
+	// (reason pipeline.ErrGracefulShutdown). From then on no pipeline is restarted by
+	// error recovery any more: a run that fails, or that is waiting in the
+	// recovery back-off, is recorded as system stopped instead (it is picked
+	// up again on the next start of the server). Without it the server could
+	// finish shutting down (Wait resolves off the dead run's tomb) while
+	// recovery restarted the pipeline behind its back.
+	shutdown     chan struct{}
+	shutdownOnce sync.Once
 }
 
 // NewService initializes and returns a lifecycle.Service.
@@ -126,6 +142,17 @@ func NewService(
 		pipelines:        pipelines,
 		runningPipelines: csync.NewMap[string, *runnablePipeline](),
 		terminalErrors:   csync.NewMap[string, error](),
+		shutdown:         make(chan struct{}),
+	}
+}
+
+// isShuttingDown reports whether a graceful server shutdown has begun.
+func (s *Service) isShuttingDown() bool {
+	select {
+	case <-s.shutdown:
+		return true
+	default:
+		return false
 	}
 }
 
@@ -283,6 +310,8 @@ func (s *Service) StartWithBackoff(ctx context.Context, rp *runnablePipeline) er
 	select {
 	case <-ctx.Done():
 		return ctx.Err()
+	case <-s.shutdown:
+		return errShutdownDuringRecovery
 	case <-time.After(duration):
 	}
 
@@ -290,6 +319,10 @@ func (s *Service) StartWithBackoff(ctx context.Context, rp *runnablePipeline) er
 	actualRp, ok := s.runningPipelines.Get(rp.pipeline.ID)
 	if !ok || actualRp != rp {
 		return nil
+	}
+
+	if s.isShuttingDown() {
+		return errShutdownDuringRecovery
 	}
 
 	return s.Start(ctx, rp.pipeline.ID)
@@ -377,6 +410,9 @@ func (s *Service) stopForceful(ctx context.Context, rp *runnablePipeline) error 
 // StopAll will ask all the running pipelines to stop gracefully
 // (i.e. that existing messages get processed but not new messages get produced).
 func (s *Service) StopAll(ctx context.Context, reason error) {
+	if cerrors.Is(reason, pipeline.ErrGracefulShutdown) {
+		s.shutdownOnce.Do(func() { close(s.shutdown) })
+	}
 	for _, rp := range s.runningPipelines.All() {
 		p := rp.pipeline
 		if p.GetStatus() != pipeline.StatusRunning && p.GetStatus() != pipeline.StatusRecovering {
@@ -972,9 +1008,22 @@ func (s *Service) runPipeline(ctx context.Context, rp *runnablePipeline) error {
 				if err := s.pipelines.UpdateStatus(ctx, rp.pipeline.ID, pipeline.StatusDegraded, fmt.Sprintf("%+v", err)); err != nil {
 					return err
 				}
+			} else if s.isShuttingDown() {
+				// the server is shutting down: do not restart, the pipeline
+				// is resumed on the next start of the server
+				err = nil
+				if updateErr := s.pipelines.UpdateStatus(ctx, rp.pipeline.ID, pipeline.StatusSystemStopped, ""); updateErr != nil {
+					return updateErr
+				}
 			} else {
 				// try to recover the pipeline
-				if recoveryErr := s.recoverPipeline(ctx, rp); recoveryErr != nil {
+				if recoveryErr := s.recoverPipeline(ctx, rp); cerrors.Is(recoveryErr, errShutdownDuringRecovery) {
+					// a shutdown began while we were waiting to restart
+					err = nil
+					if updateErr := s.pipelines.UpdateStatus(ctx, rp.pipeline.ID, pipeline.StatusSystemStopped, ""); updateErr != nil {
+						return updateErr
+					}
+				} else if recoveryErr != nil {
 					s.logger.
 						Err(ctx, err).
 						Str(log.PipelineIDField, rp.pipeline.ID).
